@@ -1256,6 +1256,8 @@ class MindsDBParser(Parser):
         if hasattr(p, 'id'):
             query.alias = Identifier(parts=[p.id])
         if hasattr(p, 'column_list'):
+            if not isinstance(getattr(query, 'targets', None), list):
+                raise ParsingException(f'Column aliases can be given only to a SELECT, got: {query.__class__.__name__}')
             for i, col in enumerate(p.column_list):
                 if i >= len(query.targets):
                     break
